@@ -62,7 +62,7 @@ def validate_traces(ctx, tracedir):
             ctx.inconclusive.append('trace validation failed to run: %s\n%s' % (r.error, r.output[-2000:]))
 
 
-def drive(ctx, thorough, modes=('stress', 'lostwake', 'deadstore')):
+def drive(ctx, thorough, modes=('stress', 'lostwake', 'deadstore', 'integ')):
     binp = vlib.build('pooldrv')
     tracedir = tempfile.mkdtemp(prefix='verif-pool-', dir=vlib.SCRATCH_ROOT)
     try:
